@@ -157,8 +157,9 @@ fn apply(p: &mut Party, who: &str, act: &Act, st: &mut Stats) -> Outcome {
 }
 
 fn run(case: &Case, st: &mut Stats) -> Outcome {
-    // words that print go to the simulated stdout
-    verif_env::install(verif_env::Env::default());
+    // words that print go to the simulated stdout; include / require see the same virtual files
+    // as in the reject engine
+    verif_env::install(crate::engines::reject::sim_files());
     let r = run_inner(case, st);
     verif_env::uninstall();
     r
